@@ -30,7 +30,9 @@ for ID in $SEEDS; do
   cp "$ROOT/known_findings.json" "$VR/"
   ( cd "$H" && CARGO_NET_OFFLINE=true cargo build --release --offline >/tmp/sm/$ID-build.log 2>&1 ) || { echo "$ID - harness-build-failed" >> "$OUT"; }
   if [ -x "$H/target/release/pvh" ]; then
-    for c in $CHECKS; do
+    # CHECKS=own: only the check of the property the seed is filed under
+    [ "$CHECKS" = own ] && SEED_CHECKS="${ID%%-*}" || SEED_CHECKS="$CHECKS"
+    for c in $SEED_CHECKS; do
       start=$(date +%s)
       VERIF_ROOT="$VR" VERIF_SEED="${VERIF_SEED:-1}" "$H/target/release/pvh" $c quick > /tmp/sm/$ID-$c.log 2>&1; code=$?
       end=$(date +%s)
